@@ -236,10 +236,12 @@ fn run(case: &Case, keep: &[bool], out: &mut CaseOut, check_every: usize) -> Opt
                 Step::Reopen => {
                     let root = tree.root();
                     pager.sync().map_err(|e| e.to_string())?;
-                    // replace the pager by a freshly opened one
-                    let newp = Pager::open(&path).map_err(|e| format!("reopen: {e}"))?;
-                    let old = std::mem::replace(&mut pager, newp);
+                    // replace the pager by a freshly opened one; the old handle is closed first (a
+                    // page file admits one handle at a time)
+                    let placeholder = Pager::open(path.with_extension("swap")).map_err(|e| format!("reopen: {e}"))?;
+                    let old = std::mem::replace(&mut pager, placeholder);
                     drop(old);
+                    pager = Pager::open(&path).map_err(|e| format!("reopen: {e}"))?;
                     tree = BTree::load(PageId::new(root.as_u64()));
                     out.count("op.reopen", 1);
                 }
